@@ -182,7 +182,7 @@ def all_jobs(tier, seed):
     for s in g.corpus():
         acl = None if rnd.random() < 0.6 else _corpus_acl(rnd, s)
         jobs.append(dict(src=s["name"], model=s["model"], rb="shipped", old=s["old"], new=s["new"], acl=acl))
-    n = 12 if quick else 120
+    n = 12 if quick else 200
     for vendor, model in [("huawei", "Huawei"), ("cisco", "Cisco"), ("arista", "Arista"), ("huawei", "Huawei CE6870"), ("pc", "PC"), ("iosxr", "Cisco ASR")]:
         rnd = g.rng(seed, "c20mut", model)
         for k in range(n):
@@ -452,7 +452,8 @@ def run(tier="quick", seed=0, part=0, nparts=1):
             if got != fr:
                 what = next(x for x in ("error", "diff", "patch", "shown", "ordered") if got.get(x) != fr.get(x))
                 add("bounded:C20:history-dependent-" + what, "%s computed after %d other jobs differs from the result in %s" % (what, pos, how),
-                    dict(job=jobs[k], history=[_brief(jobs[x]) for x in seq[:pos]][-6:], position=pos), _short(fr.get(what)), _short(got.get(what)))
+                    dict(job=jobs[k], history=[_brief(jobs[x]) for x in seq[:pos]][-6:], position=pos,
+                         sequence=dict(tier=tier, seed=seed, part=part, nparts=nparts)), _short(fr.get(what)), _short(got.get(what)))
         if pos > 0 and "error" not in res and res["patch"]:
             nontrivial.add(h(jobs[k]))
     if part == 0:
@@ -474,10 +475,22 @@ def _brief(job):
 
 
 def replay(case):
-    """re-runs the recorded job after re-running its recorded history is not possible from the brief history; the job is run
-    once in this process (with the snapshot checks) and once fresh"""
+    """a recorded history-dependent failure carries (tier, seed, part, nparts, position): the same in-process sequence is
+    rebuilt and run up to that position, then compared with a freshly exec'ed interpreter; other cases: the job is run once
+    in this process (with the snapshot checks) and once fresh"""
     job = case["job"]
-    res, fails = in_process_checks(job)
+    fails = []
+    if "sequence" in case:
+        q = case["sequence"]
+        jobs = [j for i, j in enumerate(all_jobs(q["tier"], q["seed"])) if i % q["nparts"] == q["part"]]
+        rnd = g.rng(q["seed"], "c20seq", q["part"], q["nparts"])
+        seq = list(range(len(jobs))) + list(range(len(jobs)))
+        rnd.shuffle(seq)
+        for k in seq[:case["position"] + 1]:
+            res, fails = in_process_checks(jobs[k])
+        job = jobs[seq[case["position"]]]
+    else:
+        res, fails = in_process_checks(job)
     fr = fresh_results([job], per_job_exec=True)[0]
     got = json.loads(json.dumps(res))
     if fails:
